@@ -1227,3 +1227,28 @@ def norm_cmp(o, left_pred):
     if left_pred(r):
         return _FLIP_CMP[op], r, l
     return None
+
+
+def norm_bool(o):
+    """(base, positive?) of a boolean test origin, looking through `!x`, `x == true`, `x != false`, `x == false`, `x != true`."""
+    pos = True
+    d = 0
+    while d < 8:
+        d += 1
+        if o[0] == "unop" and o[1] == "Not":
+            o = o[2]
+            pos = not pos
+            continue
+        if o[0] == "binop" and o[1] in ("Eq", "Ne"):
+            for a, c in ((o[2], o[3]), (o[3], o[2])):
+                v = o_const_value(c)
+                if isinstance(v, bool):
+                    same = (o[1] == "Eq") == v
+                    o = a
+                    pos = pos if same else (not pos)
+                    break
+            else:
+                return o, pos
+            continue
+        return o, pos
+    return o, pos
